@@ -66,7 +66,16 @@ def binop_case(draw):
     if isinstance(x, list) and isinstance(y, list) and len(x) != len(y):
         y = y[0]
     if rel.startswith("number") and isinstance(y, list):
-        y = y[0]          # "a plain number": scalars only (an ndarray on the left never reaches Quantity.__rmul__)
+        y = y[0]          # "a plain number": a scalar, unless the numpy forms below are drawn
+    left_np = None
+    if rel == "number_left":
+        # the number on the left may be a numpy scalar or a numpy array (documented: np.array([1,2,3]) * Constant('c'))
+        left_np = draw(st.sampled_from([None, None, "float64", "float32", "array"]))
+        if left_np == "array":
+            y = [y, draw(st.sampled_from([2.0, -0.5, 3.0]))]
+            x = x[0] if isinstance(x, list) else x
+        elif left_np == "float32":
+            y = float(np.float32(y))
     if rel == "same_unit":
         v = u
     elif rel == "same_dim":
@@ -79,7 +88,7 @@ def binop_case(draw):
         v = sv
     else:
         v = None
-    return {"kind": "bin", "op": op, "rel": rel, "u": u, "v": v, "x": x, "y": y}
+    return {"kind": "bin", "op": op, "rel": rel, "u": u, "v": v, "x": x, "y": y, "left_np": left_np}
 
 
 @st.composite
@@ -175,6 +184,8 @@ def check_bin(case, v):
         return Quantity(x, tu)
 
     def mk_b():
+        if rel == "number_left" and case.get("left_np"):
+            return {"float64": np.float64, "float32": np.float32, "array": lambda z: np.asarray(z, dtype=float)}[case["left_np"]](y)
         if rel == "number_right" or rel == "number_left":
             return y
         return Quantity(y, R.render(case["v"]))
